@@ -362,4 +362,171 @@ theorem verify_after_estimate (vm : Vm) (mpp : Nat) (hx : GasExact vm) (ins : Li
 
 end Est
 
+/-! ### parallel estimation followed by verification -/
+
+theorem setGasAt_comm (l : List Input) (i j g h : Nat) (hij : i ≠ j) :
+    setGasAt (setGasAt l i g) j h = setGasAt (setGasAt l j h) i g := by
+  induction l generalizing i j with
+  | nil => rfl
+  | cons x rest ih =>
+    cases i with
+    | zero =>
+      cases j with
+      | zero => exact absurd rfl hij
+      | succ j' => cases x <;> simp [setGasAt]
+    | succ i' =>
+      cases j with
+      | zero => cases x <;> simp [setGasAt]
+      | succ j' =>
+        have := ih i' j' (by omega)
+        cases x <;> simp [setGasAt, this]
+
+/-- one step of `applyEstimates` -/
+def applyOne (inputs : List Input) (x : Nat × Except PFail Nat) : List Input :=
+  match x with
+  | (i, .ok g) => setGasAt inputs i g
+  | (_, .error _) => inputs
+
+theorem applyEstimates_cons (inputs : List Input) (x : Nat × Except PFail Nat) (rest : Checks) :
+    applyEstimates inputs (x :: rest) = applyEstimates (applyOne inputs x) rest := by
+  obtain ⟨i, r⟩ := x
+  cases r <;> rfl
+
+theorem applyOne_comm (inputs : List Input) (x y : Nat × Except PFail Nat) (h : x.1 ≠ y.1) :
+    applyOne (applyOne inputs x) y = applyOne (applyOne inputs y) x := by
+  obtain ⟨i, r⟩ := x
+  obtain ⟨j, q⟩ := y
+  cases r <;> cases q <;> simp [applyOne]
+  exact setGasAt_comm inputs i j _ _ h
+
+/-- writing the estimates back does not depend on the completion order (task indices are distinct) -/
+theorem applyEstimates_perm {l1 l2 : Checks} (hp : l1.Perm l2) :
+    (l1.map (·.1)).Nodup → ∀ inputs, applyEstimates inputs l1 = applyEstimates inputs l2 := by
+  induction hp with
+  | nil => intro _ _; rfl
+  | cons x _ ih =>
+    intro hn inputs
+    simp only [List.map_cons, List.nodup_cons] at hn
+    rw [applyEstimates_cons, applyEstimates_cons]
+    exact ih hn.2 _
+  | swap x y l =>
+    intro hn inputs
+    simp only [List.map_cons, List.nodup_cons, List.mem_cons, not_or] at hn
+    rw [applyEstimates_cons, applyEstimates_cons, applyEstimates_cons, applyEstimates_cons]
+    rw [applyOne_comm inputs y x (fun e => hn.1.1 e)]
+  | trans h1 _ ih1 ih2 =>
+    intro hn inputs
+    rw [ih1 hn inputs]
+    exact ih2 ((h1.map _).nodup_iff.1 hn) inputs
+
+section EstA
+variable (predOwner : Bytes → Addr)
+
+theorem asyncTasks_index_ge (vm : Vm) (a : Action) (ins : List Input) (index : Nat) :
+    ∀ x ∈ asyncTasks predOwner vm a ins index, index ≤ x.1 := by
+  induction ins generalizing index with
+  | nil => intro x hx; simp [asyncTasks] at hx
+  | cons inp rest ih =>
+    intro x hx
+    cases inp with
+    | predicate o c g =>
+      simp only [asyncTasks] at hx
+      rcases List.mem_cons.1 hx with he | he
+      · subst he; exact Nat.le_refl _
+      · have := ih (index + 1) x he; omega
+    | signed o w => simp only [asyncTasks] at hx; have := ih (index + 1) x hx; omega
+    | contract => simp only [asyncTasks] at hx; have := ih (index + 1) x hx; omega
+
+theorem asyncTasks_nodup (vm : Vm) (a : Action) (ins : List Input) (index : Nat) :
+    ((asyncTasks predOwner vm a ins index).map (·.1)).Nodup := by
+  induction ins generalizing index with
+  | nil => simp [asyncTasks]
+  | cons inp rest ih =>
+    cases inp with
+    | predicate o c g =>
+      simp only [asyncTasks, List.map_cons, List.nodup_cons]
+      refine ⟨?_, ih (index + 1)⟩
+      intro hm
+      obtain ⟨x, hx, he⟩ := List.mem_map.1 hm
+      have := asyncTasks_index_ge predOwner vm a rest (index + 1) x hx
+      omega
+    | signed o w => simpa [asyncTasks] using ih (index + 1)
+    | contract => simpa [asyncTasks] using ih (index + 1)
+
+/-- the inputs after a parallel estimation pass (every predicate gets the same available gas `A`) -/
+def estInputsA (vm : Vm) (A : Nat) : List Input → Nat → List Input
+  | [], _ => []
+  | .predicate o c g :: rest, index =>
+    let r := checkPredicate predOwner vm (.estimating A) index o c g
+    (match r.2 with
+      | .ok _ => Input.predicate o c r.1
+      | .error _ => Input.predicate o c g) :: estInputsA vm A rest (index + 1)
+  | .signed o w :: rest, index => .signed o w :: estInputsA vm A rest (index + 1)
+  | .contract :: rest, index => .contract :: estInputsA vm A rest (index + 1)
+
+theorem applyEstimates_asyncTasks (vm : Vm) (A : Nat) (ins pre : List Input) :
+    applyEstimates (pre ++ ins) (asyncTasks predOwner vm (.estimating A) ins pre.length) =
+      pre ++ estInputsA predOwner vm A ins pre.length := by
+  induction ins generalizing pre with
+  | nil => simp [asyncTasks, applyEstimates, estInputsA]
+  | cons inp rest ih =>
+    cases inp with
+    | signed o w =>
+      have := ih (pre ++ [.signed o w])
+      simp only [List.length_append, List.length_cons, List.length_nil, List.append_assoc, List.cons_append,
+        List.nil_append, Nat.zero_add] at this
+      simp only [asyncTasks, estInputsA]
+      exact this
+    | contract =>
+      have := ih (pre ++ [.contract])
+      simp only [List.length_append, List.length_cons, List.length_nil, List.append_assoc, List.cons_append,
+        List.nil_append, Nat.zero_add] at this
+      simp only [asyncTasks, estInputsA]
+      exact this
+    | predicate o c g =>
+      simp only [asyncTasks, estInputsA]
+      generalize hr : checkPredicate predOwner vm (.estimating A) pre.length o c g = r
+      obtain ⟨used, res⟩ := r
+      cases res with
+      | error e =>
+        have := ih (pre ++ [.predicate o c g])
+        simp only [List.length_append, List.length_cons, List.length_nil, List.append_assoc, List.cons_append,
+          List.nil_append, Nat.zero_add] at this
+        simp only [Except.map, applyEstimates]
+        exact this
+      | ok u =>
+        have := ih (pre ++ [.predicate o c used])
+        simp only [List.length_append, List.length_cons, List.length_nil, List.append_assoc, List.cons_append,
+          List.nil_append, Nat.zero_add] at this
+        simp only [Except.map, applyEstimates, setGasAt_append]
+        exact this
+
+/-- every predicate has the right owner and returned true when estimated with `A` gas -/
+def EstGoodA (vm : Vm) (A : Nat) : List Input → Nat → Prop
+  | [], _ => True
+  | .predicate o c _ :: rest, index =>
+    o = predOwner c ∧ ∃ r, vm .estimation index A = .done r .returnOne ∧ r ≤ A ∧ EstGoodA vm A rest (index + 1)
+  | _ :: rest, index => EstGoodA vm A rest (index + 1)
+
+theorem verify_after_estimateA (vm : Vm) (A : Nat) (hx : GasExact vm) (ins : List Input) (index : Nat)
+    (hg : EstGoodA predOwner vm A ins index) :
+    asyncTasks predOwner vm .verifying (estInputsA predOwner vm A ins index) index =
+      asyncTasks predOwner vm (.estimating A) ins index := by
+  induction ins generalizing index with
+  | nil => rfl
+  | cons inp rest ih =>
+    cases inp with
+    | signed o w => simp only [estInputsA, asyncTasks]; exact ih _ hg
+    | contract => simp only [estInputsA, asyncTasks]; exact ih _ hg
+    | predicate o c g =>
+      obtain ⟨ho, r, hvm, hr, hrest⟩ := hg
+      have hest : checkPredicate predOwner vm (.estimating A) index o c g = (A - r, .ok ()) := by
+        simp [checkPredicate, hvm, Nat.not_lt.2 hr]
+      have hver : checkPredicate predOwner vm .verifying index o c (A - r) = (A - r, .ok ()) := by
+        simp [checkPredicate, ho, hx index _ r hvm hr]
+      simp only [estInputsA, hest, asyncTasks, hver, Except.map]
+      rw [ih _ hrest]
+
+end EstA
+
 end FuelVerif.Auth
